@@ -20,6 +20,17 @@
 (*   RegScns      registry entries: repository filters x tag filters        *)
 (*   FlagScns     two-entry lists, first entry with an inline flag, tags    *)
 (*                that differ only by letter case (v2 / V2)                 *)
+(*   FaultScns    one scripted fault in the first run (round 5): every      *)
+(*                request class of the mirror path x the 1st-3rd request of *)
+(*                the class x a hard / not-found / transient kind x run mode*)
+(*                x entry types (repository, repository + platform, image,  *)
+(*                registry), sequential and two parallel entries; a second  *)
+(*                plain run follows                                         *)
+(*   PlatScns     two and three entries of one configuration that read the  *)
+(*                SAME source index (same or different tag / repository)    *)
+(*                with different `platform:` values (amd64 / arm64 / unset) *)
+(*                in every order: each target gets ITS platform's image     *)
+(*                (round 5; the lookup cache is keyed by the index digest)  *)
 (*   SameScns     the target is a repository of the source registry         *)
 (*   S14Scns      top level alternations of 2-3 of the five pool tags in    *)
 (*   S14Quick     every order, as allow and as deny list; with Anchoring =  *)
@@ -46,6 +57,8 @@ E0 == [type |-> "repository", srepo |-> "r1", stag |-> "", treg |-> "tgt", trepo
 Img1(r, t) == [E0 EXCEPT !.type = "image", !.srepo = r, !.stag = t, !.trepo = r, !.ttag = t]
 F(ts, style) == [tags |-> ts, style |-> style]
 Run(m) == [op |-> "run", mode |-> m, repo |-> "", tag |-> "", img |-> ""]
+RunF(m, f) == [op |-> "run", mode |-> m, repo |-> "", tag |-> "", img |-> "", fault |-> f]
+Flt(reg, cls, n, kind) == [reg |-> reg, cls |-> cls, nth |-> n, kind |-> kind, hit |-> FALSE]
 Move(r, t, i) == [op |-> IF i = "" THEN "del" ELSE "move", mode |-> "", repo |-> r, tag |-> t, img |-> i]
 Scn(c, s, t, p) == [conf |-> c, src |-> s, tgt |-> t, plan |-> p]
 Conf(par, es) == [parallel |-> par, entries |-> es]
@@ -116,6 +129,32 @@ ParScns(z) ==
              <<[Img1("r1", "v1") EXCEPT !.backup = "const"], [Img1("r1", "v2") EXCEPT !.backup = "tagtpl"],
                [E0 EXCEPT !.srepo = "r2", !.trepo = "m/r2", !.backup = "othreg"]>>}}
 
+\* ---------------------------------------------------------------- entries sharing a source index, different platforms
+Plats3 == {"amd64", "arm64", ""}
+PlatA(p) == [Img1("r1", "v1") EXCEPT !.trepo = "solo", !.platform = p]
+PlatB(t, p) == [Img1("r1", t) EXCEPT !.platform = p]
+PlatC(p) == [E0 EXCEPT !.srepo = "r2", !.trepo = "r2", !.platform = p]
+PlatSrc(i) == {<<"r1", "v1", i>>, <<"r1", "v2", i>>, <<"r2", "v1", i>>, <<"r2", "latest", "A">>}
+PlatScns(z) ==
+  {Scn(Conf(0, es), PlatSrc(i), {<<"r2", "latest", "A">>}, <<Run(m), Run("once")>>) :
+     i \in {"X", "Y"}, m \in {"once", "check"},
+     es \in UNION {{<<PlatA(p1), PlatB(t, p2)>>, <<PlatB(t, p1), PlatC(p2)>>, <<PlatC(p1), PlatA(p2)>>} : p1 \in Plats3, p2 \in Plats3, t \in {"v1", "v2"}}
+          \cup {<<PlatA(p1), PlatB("v2", p2), PlatC(p3)>> : p1 \in Plats3, p2 \in Plats3, p3 \in Plats3}} \cup
+  {Scn(Conf(2, es), PlatSrc("X"), {}, <<Run("once")>>) :
+     es \in UNION {{<<PlatA(p1), PlatB("v1", p2)>>, <<PlatB("v2", p1), PlatC(p2)>>} : p1 \in Plats3, p2 \in Plats3}}
+
+\* ---------------------------------------------------------------- one scripted fault
+FaultClasses == {<<"src", "catalog">>, <<"src", "tag_list">>, <<"src", "manifest_head">>, <<"src", "manifest_get">>, <<"src", "blob_get">>,
+                 <<"tgt", "tag_list">>, <<"tgt", "blob_head">>, <<"tgt", "upload_post">>, <<"tgt", "upload_put">>, <<"tgt", "manifest_put">>}
+FaultEntries == {<<[E0 EXCEPT !.backup = "tagtpl"], [E0 EXCEPT !.srepo = "r2", !.trepo = "r2", !.platform = "amd64"]>>,
+                 <<[E0 EXCEPT !.type = "registry", !.srepo = "", !.trepo = "", !.rdeny = <<F(<<"r10">>, "group")>>]>>,
+                 <<Img1("r1", "v2"), [E0 EXCEPT !.allow = <<F(<<"v1", "v2">>, "group")>>]>>}
+FaultScns(z) ==
+  {Scn(Conf(0, es), ParSrc, ParTgt, <<RunF(m, Flt(c[1], c[2], n, kind)), Run("once")>>) :
+     es \in FaultEntries, m \in Modes3, c \in FaultClasses, n \in 1..3, kind \in {"404", "403", "500once"}} \cup
+  {Scn(Conf(2, es), ParSrc, ParTgt, <<RunF("once", Flt(c[1], c[2], n, "404")), Run("once")>>) :
+     es \in FaultEntries, c \in FaultClasses, n \in 1..2}
+
 \* ---------------------------------------------------------------- mirror inside the source registry
 SameScns(z) ==
   {Scn(Conf(par, <<[e EXCEPT !.treg = "src", !.trepo = "mirror/r1", !.backup = bk, !.platform = pl],
@@ -177,10 +216,12 @@ SharedBkSeqScns(z) ==
 \* above take a dummy parameter so that only the one a configuration selects is built
 CONSTANT Space
 SpaceScns == CASE Space = "quick" -> <<FilterScns(0), DecideQuick(0), RollScns(0), ParScns(0), RegScns(0), SharedBkSeqScns(0), SameScns(0), HoleScns(0), FlagScns(0),
-                                      BkForceScns(0), S14Quick(0)>>
-               [] Space = "gen" -> <<DecideQuick(0), RollScns(0), ParScns(0), RegScns(0), SameScns(0), S14Quick(0), BkForceScns(0), HoleScns(0), FlagScns(0)>>
+                                      BkForceScns(0), S14Quick(0), FaultScns(0), PlatScns(0)>>
+               [] Space = "gen" -> <<DecideQuick(0), RollScns(0), ParScns(0), RegScns(0), SameScns(0), S14Quick(0), BkForceScns(0), HoleScns(0), FlagScns(0), FaultScns(0), FaultScns(0), FaultScns(0), PlatScns(0), PlatScns(0)>>
                [] Space = "full" -> <<DecideFull(0), HoleFull(0)>>
                [] Space = "par" -> <<ParScns(0)>>
+               [] Space = "fault" -> <<FaultScns(0)>>
+               [] Space = "plat" -> <<PlatScns(0)>>
                [] Space = "s14" -> <<S14Scns(0)>>
                [] Space = "bkforce" -> <<BkForceScns(0)>>
                [] Space = "sharedbk" -> <<SharedBkScns(0)>>
